@@ -11,8 +11,10 @@ package certs
 import (
 	"bytes"
 	"crypto/sha3"
+	"encoding/pem"
 	"fmt"
 	"io"
+	"os"
 	"strings"
 	"testing"
 	"time"
@@ -50,6 +52,7 @@ type c04Case struct {
 	Certs   []c04Cert `json:"certs"`
 	Store   []int     `json:"store"`
 	Steps   []c04Step `json:"steps"`
+	ViaPEM  bool      `json:"viaPEM,omitempty"` // the initial store is loaded from a PEM bundle file (LoadRootStoreFromPEMFile) instead of AddCertificate calls
 }
 
 func c04Reason(err error) string {
@@ -90,13 +93,36 @@ func c04Run(c c04Case, v *vlib.Verdict) {
 
 	var store Store
 	mstore := map[[32]byte]*c04Obj{}
+	var bundle bytes.Buffer
 	for _, i := range c.Store {
 		if !inRange(i) {
 			v.Discard = true
 			return
 		}
-		store.AddCertificate(w.objs[i].obj)
+		if c.ViaPEM {
+			pem.Encode(&bundle, &pem.Block{Type: PEMTypeHopCertificate, Bytes: w.objs[i].raw})
+		} else {
+			store.AddCertificate(w.objs[i].obj)
+		}
 		mstore[w.objs[i].fp] = w.objs[i]
+	}
+	if c.ViaPEM {
+		// what a deployment does: the trusted certificates sit in one PEM file, in this order
+		f, err := os.CreateTemp("", "verif-c04-*.pem")
+		if err != nil {
+			v.Inconclusive = err.Error()
+			return
+		}
+		f.Write(bundle.Bytes())
+		f.Close()
+		loaded, err := LoadRootStoreFromPEMFile(f.Name())
+		os.Remove(f.Name())
+		if err != nil {
+			v.Failf("C04:store-bundle-rejected", "a PEM bundle of %d well-formed certificates is rejected by LoadRootStoreFromPEMFile: %v", len(c.Store), err)
+			return
+		}
+		store = *loaded
+		v.Label("store:loaded-from-pem-bundle")
 	}
 
 	accepts, nearMisses := 0, 0
@@ -508,6 +534,7 @@ func c04Gen(t *rapid.T) c04Case {
 			c.Store = append(c.Store, i)
 		}
 	}
+	c.ViaPEM = pick("viaPEM", 4) == 0
 
 	parentOf := func(i int) int {
 		if i < 0 {
